@@ -79,11 +79,18 @@ def apply_mem(req):
     try:
         tracemalloc.reset_peak()
         before = tracemalloc.get_traced_memory()[0]
-        r = _apply(purepack.apply_delta, src, delta)
+        try:
+            out = purepack.apply_delta(src, delta)      # (only the decoder: what the harness does with the result is not its memory)
+            r = "ok"
+        except ApplyDeltaError:
+            out, r = None, "err"
+        except Exception as e:
+            out, r = None, "exc:" + type(e).__name__
         peak = tracemalloc.get_traced_memory()[1] - before
+        del out
     finally:
         tracemalloc.stop()
-    return {"r": r["r"], "peak": peak}
+    return {"r": r, "peak": peak}
 
 
 HANDLERS = {"apply_mem": apply_mem, "apply_both": apply_both, "create_both": create_both, "opcodes": opcodes, "helpers": helpers}
